@@ -16,6 +16,7 @@ import (
 	"github.com/ory/fosite/token/jwt"
 	"github.com/ory/fosite/zz_verif_h/world"
 	"github.com/ory/fosite/zz_verif_h/zz"
+	"github.com/ory/fosite/zz_verif_h/zzjwt"
 )
 
 type flowEnv struct {
@@ -277,5 +278,153 @@ func ZZ_C14_flows() {
 		e.checkIDT("refresh", idt3, at3, "", true)
 	} else {
 		zz.Assert(!e.granted, "refresh: an openid grant gets an ID Token on refresh")
+	}
+}
+
+// ZZ_C14_device: the ID Token of the device grant (RFC 8628 + OpenID Connect). The application's part (user enters
+// the code, consents, the OpenID Connect session is stored under the device code signature) is played by the harness.
+func ZZ_C14_device() {
+	ks := []int{0, 2}
+	if zz.Thorough() {
+		ks = []int{0, 1, 2, 3, 4, 5}
+	}
+	key := newServerKey(ks[zz.Choice("key", len(ks))])
+	e := &flowEnv{key: key, now: time.Now(), hdrAlg: key.alg, mirrors: true}
+	if zz.Choice("hdralg", 2) == 1 {
+		e.hdrAlg, e.mirrors = "", false
+	}
+	e.w = world.New(world.Options{
+		Tweak: func(cfg *fosite.Config) {
+			cfg.IDTokenIssuer = issuer
+			cfg.IDTokenLifespan = time.Hour
+			cfg.DeviceVerificationURL = "https://as.example/device"
+		},
+		TweakStrategy: func(s *compose.CommonStrategy, cfg *fosite.Config) {
+			s.OpenIDConnectTokenStrategy = compose.NewOpenIDConnectStrategy(key.getter(), cfg)
+			s.Signer = &jwt.DefaultSigner{GetPrivateKey: key.getter()}
+		},
+		Extra: []compose.Factory{compose.RFC8628DeviceFactory, compose.RFC8628DeviceAuthorizationTokenFactory, compose.OpenIDConnectDeviceFactory},
+	})
+	w := e.w
+	e.subject = zz.String("sub", 4)
+	e.granted = zz.Choice("openid", 2) == 0
+	dr, err := w.Provider.NewDeviceRequest(w.Ctx, httpPost(url.Values{"client_id": {"c1"}, "client_secret": {world.Secret1}, "scope": {"openid offline photos"}}))
+	zz.Assume(err == nil)
+	dresp, err := w.Provider.NewDeviceResponse(w.Ctx, dr, e.session())
+	zz.Assume(err == nil)
+	dc := dresp.GetDeviceCode()
+	// the application: user code accepted, consent recorded, OpenID Connect session stored under the device code signature
+	for sig, req := range w.Store.DeviceAuths {
+		req.SetUserCodeState(fosite.UserCodeAccepted)
+		for _, s := range req.GetRequestedScopes() {
+			if s == "openid" && !e.granted {
+				continue
+			}
+			req.GrantScope(s)
+		}
+		if e.granted {
+			zz.Assume(w.Store.CreateOpenIDConnectSession(w.Ctx, sig, req) == nil)
+		}
+	}
+	preq, err := w.Provider.NewAccessRequest(w.Ctx, httpPost(url.Values{
+		"grant_type": {"urn:ietf:params:oauth:grant-type:device_code"}, "device_code": {dc},
+		"client_id": {"c1"}, "client_secret": {world.Secret1},
+	}), openid.NewDefaultSession())
+	zz.Observe("poll.err", world.ErrName(err))
+	zz.Assume(err == nil)
+	pr, err := w.Provider.NewAccessResponse(w.Ctx, preq)
+	zz.Observe("poll.resp.err", world.ErrName(err))
+	if err != nil {
+		zz.Cover("device:refused", true)
+		zz.Assert(e.subject == "" && e.granted, "device: only an empty subject makes the poll of an accepted openid device grant fail")
+		return
+	}
+	at := pr.GetAccessToken()
+	idt, _ := pr.GetExtra("id_token").(string)
+	zz.Observe("device.has_idt", idt != "")
+	if idt != "" {
+		zz.Cover("device:idt", true)
+		e.checkIDT("device", idt, at, "", false)
+	} else {
+		zz.Cover("device:without-openid", true)
+		zz.Assert(!e.granted, "device: an openid device grant gets an ID Token")
+	}
+}
+
+// ZZ_C14_unsatisfied: a max_age, prompt=none/login or id_token_hint that the session does not satisfy never yields an
+// ID Token, in no flow and at neither endpoint (the relation must survive the trip through the code's storage).
+func ZZ_C14_unsatisfied() {
+	key := newServerKey(0)
+	e := &flowEnv{key: key, now: time.Now(), hdrAlg: key.alg, mirrors: true, granted: true, subject: "peter", nonce: "nonce-0123456789"}
+	e.w = newFlowEnv(key)
+	w := e.w
+	rts := []string{"code", "id_token", "code id_token", "id_token token"}
+	rt := rts[zz.Choice("rt", len(rts))]
+	form := url.Values{
+		"client_id": {"c1"}, "response_type": {rt}, "redirect_uri": {"https://c1.example/cb"},
+		"scope": {"openid offline photos"}, "state": {"state-0123456789"}, "nonce": {e.nonce},
+	}
+	sess := e.session()
+	authOff := zz.Int("authoff", -7200, 0)
+	ratOff := zz.Int("ratoff", -7200, 0)
+	sess.Claims.AuthTime = e.now.Add(time.Duration(authOff) * time.Second)
+	sess.Claims.RequestedAt = e.now.Add(time.Duration(ratOff) * time.Second)
+	satisfied := true
+	kind := zz.Choice("kind", 5)
+	switch kind {
+	case 0:
+		form.Set("max_age", "600")
+		satisfied = authOff+600 >= ratOff
+	case 1:
+		form.Set("prompt", "none")
+		satisfied = authOff <= ratOff
+	case 2:
+		form.Set("prompt", "login")
+		satisfied = authOff >= ratOff
+	case 3, 4:
+		hsub := zz.String("hintsub", 6)
+		hkey := key.priv
+		if kind == 4 {
+			hkey, _ = zzjwt.GenKey(key.kind) // a hint the server never signed
+		}
+		form.Set("id_token_hint", zzjwt.Sign(zzjwt.Spec{Alg: key.alg, Claims: map[string]interface{}{"sub": hsub, "exp": e.now.Unix() + 600}, Key: hkey}))
+		satisfied = kind == 3 && hsub == "peter"
+	}
+	ar, err := w.Provider.NewAuthorizeRequest(w.Ctx, httpGet(form))
+	zz.Assume(err == nil)
+	for _, s := range ar.GetRequestedScopes() {
+		ar.GrantScope(s)
+	}
+	resp, err := w.Provider.NewAuthorizeResponse(w.Ctx, ar, sess)
+	zz.Observe("authorize.err", world.ErrName(err))
+	if err != nil {
+		zz.Cover("unsatisfied:authorize-refused", true)
+		zz.Assert(!satisfied, "unsatisfied: a satisfied max_age / prompt / id_token_hint does not block the authorization")
+		return
+	}
+	zz.Cover("unsatisfied:authorize-ok", true)
+	zz.Assert(satisfied, "unsatisfied: no authorization response when max_age / prompt / id_token_hint is not satisfied")
+	idt := resp.GetParameters().Get("id_token")
+	if idt != "" {
+		e.checkIDT("unsat.authorize", idt, resp.GetParameters().Get("access_token"), resp.GetCode(), false)
+	}
+	if resp.GetCode() == "" {
+		return
+	}
+	treq, err := w.Provider.NewAccessRequest(w.Ctx, httpPost(url.Values{
+		"grant_type": {"authorization_code"}, "code": {resp.GetCode()}, "redirect_uri": {"https://c1.example/cb"},
+		"client_id": {"c1"}, "client_secret": {world.Secret1},
+	}), openid.NewDefaultSession())
+	zz.Assume(err == nil)
+	tr, err := w.Provider.NewAccessResponse(w.Ctx, treq)
+	zz.Observe("redeem.err", world.ErrName(err))
+	zz.Assert(err == nil, "unsatisfied: a satisfied request is redeemed")
+	if err == nil {
+		idt2, _ := tr.GetExtra("id_token").(string)
+		zz.Assert(idt2 != "", "unsatisfied: the redeemed openid grant carries an ID Token")
+		if idt2 != "" {
+			zz.Cover("unsatisfied:redeemed-with-idt", true)
+			e.checkIDT("unsat.redeem", idt2, tr.GetAccessToken(), "", false)
+		}
 	}
 }
